@@ -1,6 +1,7 @@
 package main
 
 import (
+	"net/http/httptest"
 	"bufio"
 	"bytes"
 	"io"
@@ -19,11 +20,12 @@ func init() {
 		ID:    "C15",
 		Level: "fault_enumeration",
 		Rule: "enumerated grid over a real server: request side sizes {0, mem-1, mem, mem+1, max-1, max, max+1, 4*max} x {declared, chunked} x mem {<,=,>} max x max in {0 = unlimited, n}; response side the same size grid x write chunkings x statuses {200,204,304,500} x methods {GET,HEAD} x 'Content-Length: 0' with a body x grpc-status x handler panic after spilling x a status the real writer refuses (relay panics) x hijack after spilling x retry sequences whose earlier attempts spilled; " +
-			"after the buffer's ServeHTTP has returned (signalled by a wrapper, no sleeping) the private TMPDIR of the child process is listed and must be empty; over-limit requests must get 413 without reaching the handler, over-limit responses an error status with none of the handler's (marked) bytes; non-trivial = grid point at which a temporary file was actually created or a limit was hit; distinct by grid point",
+			"part inflated: the buffer driven in-process behind a body-replacing middleware (decompression style): the body is longer than the declared Content-Length (0, a small number, half, or unknown) and its true size is discovered only while reading; after the buffer's ServeHTTP has returned (signalled by a wrapper, no sleeping) the private TMPDIR of the child process is listed and must be empty; over-limit requests must get 413 without reaching the handler, over-limit responses an error status with none of the handler's (marked) bytes; non-trivial = grid point at which a temporary file was actually created or a limit was hit; distinct by grid point",
 		Assumptions: []string{"TMPDIR is private to the child process (os.TempDir reads it on every call)", "the listing happens after the deferred closes of Buffer.ServeHTTP have run"},
 		Parts: []Part{
 			{Name: "request", Shards: 8, Fn: c15Request},
 			{Name: "response", Shards: 8, Fn: c15Response},
+			{Name: "inflated", Shards: 2, Fn: c15Inflated},
 		},
 	})
 }
@@ -388,4 +390,71 @@ func c15Response(c *Ctx) {
 	c.Require("response_points_nontrivial", 2)
 	c.Require("response_points_that_spilled", 1)
 	c.Require("over_limit_responses", 1)
+}
+
+// c15Inflated: the buffer sits behind a middleware that replaces the body (decompression, re-encoding) without
+// correcting Content-Length, so the declared length understates what Body yields; the true size is discovered while
+// reading, and a body over the maximum must be answered 413 without reaching the handler, leaving no temp file.
+func c15Inflated(c *Ctx) {
+	dir := os.Getenv("TMPDIR")
+	if dir == "" || !strings.HasPrefix(dir, c.ScratchDir) {
+		c.Inconclusive("TMPDIR is not the child's private scratch directory")
+		return
+	}
+	c.Cases("inflated", c.N(300, 6000), func(i int, r *rand.Rand) {
+		max := pick(r, []int64{40, 1000, 70000})
+		mem := pick(r, []int64{1, 100, 2000, 0})
+		size := pick(r, []int64{max + 1, max + 1 + r.Int64N(max), 4 * max, max, max - 1, max / 2})
+		declared := pick(r, []int64{0, 10, size / 2, -1, max})
+		if declared > size {
+			declared = size
+		}
+		invoked := 0
+		var seen int64 = -1
+		h := http.HandlerFunc(func(w http.ResponseWriter, req *http.Request) {
+			invoked++
+			b, _ := io.ReadAll(req.Body)
+			seen = int64(len(b))
+			w.WriteHeader(200)
+		})
+		opts := []buffer.Option{buffer.MaxRequestBodyBytes(max)}
+		if mem > 0 {
+			opts = append(opts, buffer.MemRequestBodyBytes(mem))
+		}
+		buf, err := buffer.New(h, opts...)
+		if err != nil {
+			c.Violation("constructor", err.Error(), nil)
+			return
+		}
+		req := httptest.NewRequest("POST", "http://front.test/upload", nil)
+		req.Body = io.NopCloser(struct{ io.Reader }{bytes.NewReader(detBody(int(size), uint64(i)))})
+		req.ContentLength = declared
+		rec := httptest.NewRecorder()
+		buf.ServeHTTP(rec, req)
+		c.Eval()
+		desc := map[string]any{"max": max, "mem": mem, "actual_size": size, "declared_content_length": declared}
+		if size > max {
+			c.Count("inflated_over_limit", 1)
+			if invoked != 0 {
+				c.Violation("request/over-limit-reached-handler", sfmt("body of %d bytes behind a declared Content-Length of %d (max %d): the protected handler was invoked and read %d bytes (status %d)", size, declared, max, seen, rec.Code), desc)
+				return
+			}
+			if rec.Code != http.StatusRequestEntityTooLarge {
+				c.Violation("request/over-limit-status", sfmt("body of %d bytes behind a declared Content-Length of %d (max %d) answered %d, want 413", size, declared, max, rec.Code), desc)
+				return
+			}
+			c.Nontrivial(sfmt("inflated/%d/%d/%d/%d", max, mem, size, declared))
+			c.Count("inflated_nontrivial", 1)
+		} else if rec.Code != 200 || invoked != 1 {
+			c.Violation("request/within-limit-refused", sfmt("body of %d bytes (declared %d, max %d): status %d, handler invoked %d times", size, declared, max, rec.Code, invoked), desc)
+			return
+		}
+		if left := tmpEntries(dir); len(left) > 0 {
+			c.Violation("tempfile/request-side", sfmt("after the in-process exchange (actual %d, declared %d, mem %d, max %d, status %d) the temp directory still holds %v", size, declared, mem, max, rec.Code, left), desc)
+			for _, n := range left {
+				os.Remove(dir + "/" + n)
+			}
+		}
+	})
+	c.Require("inflated_nontrivial", 2)
 }
